@@ -148,10 +148,12 @@ Print Assumptions xml_eof_at_end.
    What the property's sentence (one token per construct, Text() equal to the name or content) gets for a
    PI is therefore: one bracket StartTagPI ... StartTagClosePI per instruction, Text() of StartTagPI = the
    target; the content is NOT available as one Text(), only as the bytes of the Attribute tokens in
-   between (design of the token types, not a defect).  Remaining deviation from XML 1.0 (known finding
-   hard-pi-content-quote): a piece of the form name = quote ... opens a quoted value that runs to the
-   matching quote, so a quote after '=' in PI content can carry the instruction beyond its ?>.
-   PARTIAL only in this sense and for CR LF in attribute values (xml_attr_crlf_refuted). *)
+   between (design of the token types, not a defect).
+   In a processing instruction a quoted piece ends at its closing quote or at the instruction's first
+   ?> (then AttrVal is the opening quote and the bytes up to there), so every instruction ends at its
+   first ?> as in XML 1.0 (xml_pi_quote_exact; fixed in /repo by 5eea3cf).
+   PARTIAL only in the sense that PI content comes as Attribute pieces, and for CR LF in attribute values
+   (xml_attr_crlf_refuted). *)
 Theorem xml_wellformed_tokens_partial :
   forall items, doc_ok items -> lexes (xml_init (render_doc items)) (expect_doc items) 1.
 Proof. exact xml_wellformed_tokens_proof. Qed.
@@ -187,6 +189,20 @@ Theorem xml_pi_content_exact :
       (TStartTag, Some [60; 97], Some [97], None); (TStartTagCloseVoid, Some [47; 62], None, None) ].
 Proof. exact xml_pi_content_exact_proof. Qed.
 Print Assumptions xml_pi_content_exact.
+
+(* A quote after '=' in PI content no longer carries the instruction beyond its ?> : <?p a=QUOTE b?><a/>
+   is the opener <?p , the piece  a=QUOTE b  cut by ?> (Text = a, AttrVal = QUOTE b), the closer ?>, then
+   the element. *)
+Theorem xml_pi_quote_exact :
+  render_doc ex_pi_quote_items = ex_pi_quote /\
+  lexes (xml_init ex_pi_quote) (expect_doc ex_pi_quote_items) 1 /\
+  expect_doc ex_pi_quote_items =
+    [ (TStartTagPI, Some [60; 63; 112], Some [112], None);
+      (TAttribute, Some [32; 97; 61; 34; 98], Some [97], Some [34; 98]);
+      (TStartTagClosePI, Some [63; 62], None, None);
+      (TStartTag, Some [60; 97], Some [97], None); (TStartTagCloseVoid, Some [47; 62], None, None) ].
+Proof. exact xml_pi_quote_exact_proof. Qed.
+Print Assumptions xml_pi_quote_exact.
 
 (* The conforming processing instruction and start tag (pseudo-attributes / attributes with quoted values)
    are the general opener with quoted pieces: same bytes, same prescribed tokens. *)
